@@ -42,6 +42,9 @@ UNDO = {"periph_add": "periph_remove", "lag_on": "lag_off", "bio_add": "bio_remo
         "elim_mm": "elim_fo", "elim_mix": "elim_fo", "elim_zo": "elim_fo"}
 
 
+PRUNE_KNOWN = True  # a state returned by a transition that reproduces a recorded known finding is not expanded
+
+
 def may_reset(cat, val):
     """categories that a request may reset to their default: exactly the documented exclusion pairs (docs/modelsearch.rst)
     ZO-TRANSITS, SEQ-TRANSITS, SEQ-LAGTIME(ON), INST-LAGTIME(ON), INST-TRANSITS, LAGTIME(ON)-TRANSITS"""
